@@ -2,6 +2,8 @@ package main
 
 import (
 	"fmt"
+	"os"
+	"path/filepath"
 	"strings"
 )
 
@@ -62,6 +64,8 @@ func checkC10(r *Run) {
 	if len(goReqs) > 0 {
 		goResps, _ = c.runGo(goReqs)
 	}
+	xreqs, xwant := c10OptionalPass(r, c, pyErr == nil)
+	pyReqs = append(pyReqs, xreqs...)
 	if len(pyReqs) > 0 {
 		pyResps, _ = c.runPy(pyReqs)
 	}
@@ -144,6 +148,10 @@ func checkC10(r *Run) {
 		}
 	}
 	for _, q := range pyReqs {
+		if want, isX := xwant[q.ID]; isX {
+			c10JudgeOptionalPass(r, q.ID, want, pyResps)
+			continue
+		}
 		if resp, ok := pyResps[q.ID]; ok {
 			judge("python", q.ID, resp)
 		}
@@ -177,4 +185,65 @@ func checkC10(r *Run) {
 func mustJSONBytes(v any) []byte {
 	d := amDoc{Val: v}
 	return d.JSON()
+}
+
+// ---- optional pass workload ---------------------------------------------------------------------
+// `disjunction_with_constant_to_default` is not part of any language's chain: it is enabled through a schema
+// transformation file. With it, a union of a constant and its own scalar kind becomes that scalar with the
+// constant as default, whatever the order of the branches.
+
+const c10OptionalPassSchema = `{"$schema":"http://json-schema.org/draft-07/schema#","definitions":{
+ "Holder":{"type":"object","additionalProperties":false,"properties":{
+   "constFirst":{"anyOf":[{"const":"x","type":"string"},{"type":"string"}]},
+   "constLast":{"anyOf":[{"type":"string"},{"const":"y","type":"string"}]},
+   "plain":{"type":"string","default":"p"}},
+  "required":["constFirst","constLast","plain"]}},
+ "type":"object","properties":{"holder":{"$ref":"#/definitions/Holder"}}}`
+
+func c10OptionalPass(r *Run, c *corpus, pyOK bool) ([]drvReq, map[string]map[string]string) {
+	if !pyOK {
+		return nil, nil
+	}
+	sid := "x0002"
+	in := filepath.Join(c.dir, "in", sid)
+	_ = os.MkdirAll(in, 0o755)
+	_ = os.WriteFile(filepath.Join(in, "pk.json"), []byte(c10OptionalPassSchema), 0o644)
+	_ = os.WriteFile(filepath.Join(in, "passes.yaml"), []byte("passes:\n  - disjunction_with_constant_to_default: {}\n"), 0o644)
+	outRoot := filepath.Join(c.dir, "out", sid)
+	yaml := fmt.Sprintf("inputs:\n  - jsonschema:\n      path: %s\n      package: pk\ntransformations:\n  schemas:\n    - %s\noutput:\n  directory: %s\n  types: true\n  builders: false\n  languages:\n    - python: {generate_json_marshaller: true}\n",
+		yq(filepath.Join(in, "pk.json")), yq(filepath.Join(in, "passes.yaml")), yq(filepath.Join(outRoot, "%l")))
+	res := runPipelineYAML(in, "pipeline.yaml", yaml, outRoot)
+	if res.Err != nil || res.Panic != nil {
+		r.CaseInconclusive(fmt.Sprintf("optional-pass workload: pipeline failed: %v %v", res.Err, res.Panic))
+		return nil, nil
+	}
+	if err := res.Files.under("python").writeTo(filepath.Join(c.dir, "pyroot", sid)); err != nil {
+		r.CaseInconclusive("optional-pass workload: " + err.Error())
+		return nil, nil
+	}
+	id := sid + "/pk.Holder"
+	return []drvReq{{ID: id, Op: "default", Type: id}}, map[string]map[string]string{id: {"constFirst": "x", "constLast": "y", "plain": "p"}}
+}
+
+func c10JudgeOptionalPass(r *Run, id string, want map[string]string, resps map[string]drvResp) {
+	resp, ok := resps[id]
+	if !ok {
+		r.CaseInconclusive("no python response for " + id)
+		return
+	}
+	r.Eval()
+	r.Distinct(id)
+	r.Count("events.optional_pass_defaults", 1)
+	replay := map[string]any{"workload": "disjunction_with_constant_to_default", "schema": c10OptionalPassSchema}
+	if resp.Panic != "" {
+		r.Violation("python/optional-pass/exception/"+maskMsg(truncate(resp.Panic, 80)), resp.Panic, replay)
+		return
+	}
+	got, _ := parseJSONNum(resp.Out)
+	gm, _ := got.(map[string]any)
+	for _, f := range sortedKeys(want) {
+		if fmt.Sprint(gm[f]) != want[f] {
+			r.Violation("python/optional-pass/default-differs/"+f, fmt.Sprintf("with disjunction_with_constant_to_default enabled, the default object holds %v for %s, expected %q (%s)", gm[f], f, want[f], resp.Out), replay)
+		}
+	}
 }
